@@ -11,9 +11,10 @@ From Coq Require Import QArith Qabs Permutation.
 
 (* ------------------------------------------------------------------------------------------- *)
 (** * All operators: operator.dot(x) and the 2-D branch of _matvec equal the dense matrix times x / X,
-      for every well-formed expression that avoids the three defective sites ([op_sound_site]:
+      for every well-formed expression that avoids the defective sites ([op_sound_site]:
       no transposed Normalizer, no transposed Laplacian of a non-symmetric adjacency,
-      no non-square factor in CoNeighbor.left/right_sparse_dot). *)
+      no non-square factor in CoNeighbor.left/right_sparse_dot, no CoNeighbor negation / scaling while the two
+      factors share their data buffer, i.e. directly on CoNeighbor(normalized=False)). *)
 Theorem operator_denotes (sqrtf : Q -> Q) (o : op_expr) (x : list Q) :
   Proper (Qeq ==> Qeq) sqrtf -> op_wf o -> op_sound_site o -> length x = snd (op_shape o) ->
   exists y, op_apply sqrtf o x = Ok y /\ y =v mat_vec (op_dense sqrtf o) x.
@@ -152,10 +153,12 @@ Print Assumptions coneighbor_denotes.
 Theorem coneighbor_matvec_denotes v x : cn_wfv v -> length x = cn_ncol v -> cn_matvec v x =v mat_vec (cn_dense v) x.
 Proof. exact (OperatorsProofs.coneighbor_matvec_denotes v x). Qed.
 Print Assumptions coneighbor_matvec_denotes.
-Theorem coneighbor_neg_denotes v r c D : cn_is v r c D -> cn_is (cn_neg v) r c (mneg D).
+(** negation / scaling are right when the two factors do not share their data buffer ([cn_shared v = false]:
+    normalized=True, or one factor already replaced by a product / a transposition) *)
+Theorem coneighbor_neg_denotes v r c D : cn_shared v = false -> cn_is v r c D -> cn_is (cn_neg v) r c (mneg D).
 Proof. exact (cn_neg_is v r c D). Qed.
 Print Assumptions coneighbor_neg_denotes.
-Theorem coneighbor_mul_denotes q v r c D : cn_is v r c D -> cn_is (cn_mul q v) r c (mscale q D).
+Theorem coneighbor_mul_denotes q v r c D : cn_shared v = false -> cn_is v r c D -> cn_is (cn_mul q v) r c (mscale q D).
 Proof. exact (cn_mul_is q v r c D). Qed.
 Print Assumptions coneighbor_mul_denotes.
 Theorem coneighbor_left_sparse_dot_denotes M v r c D :
@@ -169,8 +172,9 @@ Print Assumptions coneighbor_right_sparse_dot_denotes.
 Theorem coneighbor_transpose_denotes v r c D : cn_is v r c D -> cn_is (cn_transpose v) c r (transpose_n c D).
 Proof. exact (cn_transpose_is v r c D). Qed.
 Print Assumptions coneighbor_transpose_denotes.
-(** operator.dot(x) passes LinearOperator's shape checks and equals dense . x when every factor is square *)
-Theorem coneighbor_dot_denotes e x : ce_wf e -> ce_square_factors e -> length x = snd (ce_shape e) ->
+(** operator.dot(x) passes LinearOperator's shape checks and equals dense . x when every factor is square and no
+    scaling hits shared factors *)
+Theorem coneighbor_dot_denotes e x : ce_wf e -> ce_square_factors e -> ce_unshared_scaling e -> length x = snd (ce_shape e) ->
   exists y, cn_dot (cn_eval e) x = Ok y /\ y =v mat_vec (ce_dense e) x.
 Proof. exact (OperatorsProofs.coneighbor_dot_denotes e x). Qed.
 Print Assumptions coneighbor_dot_denotes.
@@ -179,6 +183,12 @@ Theorem coneighbor_sparse_dot_shape_refuted :
   exists e x, ce_wf e /\ length x = snd (ce_shape e) /\ cn_dot (cn_eval e) x = Err.
 Proof. exact OperatorsProofs.coneighbor_sparse_dot_shape_refuted. Qed.
 Print Assumptions coneighbor_sparse_dot_shape_refuted.
+(** with normalized=False, backward *= c also scales forward (adjacency.T is a view on the same buffer): -op = op *)
+Theorem coneighbor_shared_scaling_refuted :
+  exists a x y, swf a /\ snonneg a /\ length x = s_nrow a /\
+    cn_dot (cn_eval (CNeg (CBase a false))) x = Ok y /\ ~ (y =v mat_vec (ce_dense (CNeg (CBase a false))) x).
+Proof. exact OperatorsProofs.coneighbor_shared_scaling_refuted. Qed.
+Print Assumptions coneighbor_shared_scaling_refuted.
 
 (* ------------------------------------------------------------------------------------------- *)
 (** * Polynome *)
@@ -317,6 +327,6 @@ Example c15_nonvacuous_coneighbor :
   let o := OCn (CT (CNeg (CBase a true))) in
   op_wf o /\ op_sound_site o /\ exists y, op_apply (fun q => q) o [2; 4]%Q = Ok y.
 Proof.
-  split; [|split; [exact I | eexists; vm_compute; reflexivity]].
+  split; [|split; [simpl; repeat split | eexists; vm_compute; reflexivity]].
   simpl. repeat split; repeat constructor; unfold Qle; simpl; lia.
 Qed.
